@@ -23,7 +23,7 @@ func (w *World) Serve(q *Req) {
 	q.Local.Ref = q
 	q.Local.Init(q.PlannedCancel, func() {
 		q.AsyncCancelAt = q.Local.CIdx
-		q.ev(EvCancel, 0, 0, "")
+		q.ev(EvCancel, 0, 0, SiteName(q.Local.CancelSite))
 		cancel()
 	})
 	h := http.Header{"X-Req": {q.Name}}
